@@ -14,5 +14,8 @@ def run(rep):
     if not q:
         fw.standin(rep, 'difftest.py', ['run', 'F2', rep.seed, 0, '--exhaustive', '--max-depth', 2],
                    'translation validation, exhaustive depth<=2', 'all 35341 body trees of depth<=2', timeout=1800)
+    fw.standin(rep, 's_ctl.py', ['run', rep.seed, 500 if q else 8000],
+               'control constructs in clauses with plain distinct head variables (no enclosing loop), nested in conditions and under negation',
+               'systematic nested-condition trees + random F2 trees')
     rep.notes.append('compile_body is verified path by path against semb (cut = seq(yield,cut); YieldBreak = cut) for all sub-bodies; '
                      'that a cut status ends only the clause function is the target semantics of `return` (A-CPY-TEXT, bounded TV)')
